@@ -404,6 +404,11 @@ type WorldOptions struct {
 	MaxHosts    int
 	WithPayment bool
 	WrapStore   func(store.Store) store.Store // e.g. chaos wrapper
+	// Contract puts the repository's real contract-backed balance store
+	// (payment.ContractPayment on a simulated chain) between the store and the
+	// balance manager / payment service, as pool.go does with --contract.address.
+	Contract        bool
+	ContractWallets []*Identity // wallets funded on the simulated chain
 }
 
 // World is a pool with its store, balance manager and fake agents.
@@ -415,6 +420,7 @@ type World struct {
 	Mgr      balance.Manager
 	Clock    *VClock
 	Deposits *DepositStore
+	Contract *ContractEnv
 	Payment  *payment.PaymentService
 	Server   *jsonrpc2.Server
 	Local    *jsonrpc2.Local
@@ -466,6 +472,15 @@ func NewWorld(o WorldOptions) (*World, error) {
 		w.Deposits = NewDepositStore(w.Store)
 		bs = w.Deposits
 	}
+	if o.Contract {
+		env, err := NewContractEnv(w.Store, o.ContractWallets)
+		if err != nil {
+			w.cleanup()
+			return nil, err
+		}
+		w.Contract = env
+		bs = env.Pay
+	}
 	if o.Price != nil {
 		iv := o.Interval
 		if iv == 0 {
@@ -494,6 +509,9 @@ func NewWorld(o WorldOptions) (*World, error) {
 			BalanceStore: bs,
 		}
 		w.Payment.Settle = w.settle
+		if o.Contract {
+			w.Payment.Settle = w.settleContract
+		}
 		if err := w.Server.Register("pool_", w.Payment); err != nil {
 			return nil, err
 		}
@@ -530,6 +548,33 @@ func (w *World) settle(account store.Account, amount *big.Int, newBalance *big.I
 	return fmt.Sprintf("tx%d", ev.Attempt), nil
 }
 
+// settleContract is pool.go's settle handler (the contract's OpSettle) with the
+// transaction mined at once and the event recorded like settle does.
+func (w *World) settleContract(account store.Account, amount *big.Int, newBalance *big.Int) (string, error) {
+	w.settleMu.Lock()
+	ev := SettleEvent{Stamp: w.Tick(), Account: account, Amount: new(big.Int).Set(amount), NewBalance: new(big.Int).Set(newBalance), Attempt: len(w.Settles) + 1}
+	fn := w.SettleFn
+	w.settleMu.Unlock()
+	var err error
+	if fn != nil {
+		err = fn(&ev)
+	}
+	tx := ""
+	if err == nil {
+		tx, err = w.Contract.Pay.OpSettle(account, amount, newBalance)
+		if err == nil {
+			w.Contract.Backend.Commit()
+		}
+	}
+	if err != nil {
+		ev.Err = err.Error()
+	}
+	w.settleMu.Lock()
+	w.Settles = append(w.Settles, ev)
+	w.settleMu.Unlock()
+	return tx, err
+}
+
 // SettleLog returns a copy of the settle events.
 func (w *World) SettleLog() []SettleEvent {
 	w.settleMu.Lock()
@@ -544,6 +589,9 @@ func (w *World) Close() {
 	w.connMu.Unlock()
 	for _, c := range conns {
 		c.Close()
+	}
+	if w.Contract != nil {
+		w.Contract.Close()
 	}
 	w.cleanup()
 }
